@@ -30,6 +30,8 @@ def run(an: Analysis, rep):
     rep.run(purity, an, rep, "R08.P", ["constant_eq", "from_json", "from_code", "normalize"])
     for fn in (r081, r082, r083, r084):
         rep.run(fn, an, rep)
+    from . import c12
+    rep.run(c12.arg_mutation_rule, an, rep, "R08.M", ["normalize", "to_code", "to_json", "from_code"])
 
 
 def r081(an, rep):
